@@ -10,6 +10,21 @@ TB = ("Trusted: Lean 4.33.0 kernel; axioms propext/Classical.choice/Quot.sound o
       "CPython/pandas/numpy/networkx semantics are modelled, not verified. ")
 
 CLAIMED = {
+  "C01": dict(
+    text="Lean 4 theorems over a model of parsing and alignment in exact decimal arithmetic: C01_parse_rows_exact (a row exists iff the entry at that position is complete; fields are the entry's), C01_parse_idx_increasing (one row per entry), C01_align_uniform / C01_align_min_zero (one constant for all ranks, earliest event at 0, nothing else changes), C01_end_eq_ts_plus_dur, C01_round_inward / _preserves_containment / _preserves_disjoint / _integer (inward rounding). Tied to Trace.parse_traces and TraceAnalysis loading (json / json.gz, sequential / pooled) by a differential run and an independent Python oracle on the file's events.",
+    note=TB + "Fractional timestamps are generated as dyadic rationals so that the double addition ts+dur is exact; a 3-decimal stream is compared with one unit of tolerance where the exact sum is an integer. IEEE addition itself is not modelled: partial for the rounding clause. JSON/gzip decoding trusted.",
+    technique="Lean 4 proof (list induction, omega on /1000 rounding) + model/implementation correspondence",
+    design="7/C01"),
+  "C02": dict(
+    text="Lean 4 theorems: C02_link_spec (under unique ids and at most one host-side / one device-side event per correlation id, every link is the id of the unique opposite-side event with the same correlation id, mutually, or the sentinel min(correlation,0)), C02_link_sound_unconditional (without any hypothesis a link written by the merge points to an opposite-side event with the same correlation). The model mirrors the merge and the two scatter writes (later writes win). Tied to index_correlation of both the parse-only and the loaded frame by a differential run and a Python oracle.",
+    note=TB + "Sync records on stream -1 are device-side by name, as in the code.",
+    technique="Lean 4 proof (find?/membership reasoning over the merge pairs) + model/implementation correspondence",
+    design="7/C02"),
+  "C12": dict(
+    text="Lean 4 theorems: C12_iter_host_inside / _outside with disjoint_steps_unique (host events get the number of the step whose half-open span contains their start, -1 otherwise), C12_iter_device / _unlinked (device activities inherit through the link), C12_trim_keeps_exactly with C12_kept_host_rule (kept = host events before the last step's start, or up to its end when requested, plus device activities whose correlation is that of a kept host event), C12_trim_nodup, C12_trim_noop_lt2, C12_trim_no_steps. Tied to the iteration column, the loaded id set, get_iterations and get_profiler_steps for both flag values by a differential run and a Python oracle; boundary events at step starts/ends are injected.",
+    note=TB + "Hypothesis made explicit: every rank carries the same ProfilerStep names (the code counts steps in the global symbol table); C12_trim_no_steps states what happens otherwise.",
+    technique="Lean 4 proof (fold invariants, membership/Nodup of the trimming join) + model/implementation correspondence",
+    design="7/C12"),
   "C04": dict(
     text="Lean 4 theorem C04_temporal_partition: for every non-empty list of non-negative device intervals and every start-sorted permutation of it, the merge routine's numbers equal the unit-cell measures of the span/idle/compute/remainder and sum exactly to kernel_time. Tied to the code by a differential run of get_temporal_breakdown against the executable model, plus Spec.C04.check and an independent Python oracle evaluated on the implementation's own output.",
     note=TB + "Percent columns compared within 0.006 (float rounding not modelled). Kernel-type regexes modelled as prefix/infix tests and compared against Python re on every generated name.",
